@@ -24,7 +24,8 @@
 
    The same operators take a set D of DEVIATIONS.  D = {} is the property.  A non-empty D replays
    confirmed defects of gobgp (known findings) so that `*_KF` invariants can tolerate exactly those:
-     "pfx"      a prefix-limit overrun is classified as a graceful loss when GR is negotiated
+     "pfx"      a prefix-limit overrun is classified as a graceful loss when GR is negotiated (the history
+                after such a loss is not replayed any further)
      "stuck"    the GR/LLGR state negotiated by an EARLIER session (GR capability seen, families
                 listed, N bit, LLGR times) is never cleared by a later OPEN without it
      "failconn" a connection attempt that fails while the neighbour is restarting is handled like
@@ -51,7 +52,7 @@ NoCaps == [gr |-> FALSE, fams |-> [f \in Fams |-> FALSE], rt |-> 0, n |-> FALSE,
 HInit == [rts |-> [x \in Prefixes |-> NoRoute], up |-> FALSE, caps |-> NoCaps, sticky |-> NoCaps,
           restarting |-> FALSE, rdl |-> -1, ldl |-> [f \in Fams |-> -1], eor |-> [f \in Fams |-> FALSE],
           second |-> FALSE, taint |-> FALSE, edge |-> FALSE, last |-> "none", over |-> FALSE,
-          llstuck |-> FALSE]
+          llstuck |-> FALSE, doom |-> FALSE]
 
 ---------------------------------------------------------------------------
 (* capabilities in force.  [P] "a session with negotiated graceful restart": the local side has GR
@@ -116,7 +117,7 @@ Adv(cfg, h, t, D) ==
   LET h1 == IF h.rdl >= 0 /\ h.rdl < t THEN RestartExpire(cfg, h, h.rdl, D) ELSE h
       h2 == IF h1.ldl["v4"] >= 0 /\ h1.ldl["v4"] < t THEN LlgrExpire(h1, "v4", D) ELSE h1
       h3 == IF h2.ldl["v6"] >= 0 /\ h2.ldl["v6"] < t THEN LlgrExpire(h2, "v6", D) ELSE h2
-  IN [h3 EXCEPT !.edge = (h3.rdl = t \/ \E f \in Fams : h3.ldl[f] = t)]
+  IN [h3 EXCEPT !.edge = (h3.rdl = t \/ \E f \in Fams : h3.ldl[f] = t), !.taint = h3.taint \/ h3.doom]
 
 (* an input other than the passage of time: racing with a deadline => not judged any further *)
 AdvIn(cfg, h, t, D) == LET a == Adv(cfg, h, t, D) IN [a EXCEPT !.taint = a.taint \/ a.edge, !.edge = FALSE]
@@ -169,7 +170,11 @@ HLoss(cfg, h, t, D, kind) ==
                        ELSE [r EXCEPT !.stale = TRUE]],
             !.up = FALSE, !.restarting = TRUE, !.rdl = t + 1000 * Eff(cfg, a, D).rt,
             !.second = a.restarting, !.last = IF a.restarting THEN "qual2" ELSE "qual",
-            !.over = a.over \/ (kind = "pfxlimit"),
+            (* deviation "pfx": the observation right after the mis-classified loss is replayed exactly (family
+               split, the routes of the offending UPDATE installed: over); what follows is not replayed (the
+               retained routes keep counting against the limit, the aborted UPDATE leaves the tables
+               inconsistent): doom *)
+            !.over = a.over \/ (kind = "pfxlimit"), !.doom = a.doom \/ (kind = "pfxlimit"),
             !.taint = a.taint \/ Unsettled(cfg, a, D, kind)]
      ELSE [PurgeAll(a) EXCEPT
             !.up = FALSE, !.taint = a.taint \/ Unsettled(cfg, a, D, kind),
